@@ -576,8 +576,8 @@ func TestC20(t *testing.T) {
 
 func init() {
 	Describe("C20",
-		"cases: (input document, -f format in {text, pretty, binary, events, none, default}, input via file argument or stdin): documents of all types, typed nulls, annotations, nested containers from the reference printer / encoder with spelling variety, streams with local symbol tables, and 20% edited (mostly invalid) documents from the C07 catalogue; enumerated: every type, every typed null and several container shapes, each alone and all together, in text and binary x 6 formats x 2 input routes, plus truncated inputs. The CLI is rebuilt from the working tree and run as a subprocess with -o / -e files. Non-trivial: the input contains a typed null or a struct, or is invalid. Distinct by digest(input, format, route).",
-		"oracle: exit status 0 and no 'panic:' / 'goroutine ' / 'fatal error' on stderr or stdout for every input; valid input (reference decoder): empty error report; text / pretty / binary output reference-decodes to the input's values (symbols by text); events output parses as $ion_event_stream followed by exactly one struct per value, container start, container end and a final STREAM_END, with event_type, ion_type, depth, field_name and annotations present exactly where the input has them (texts equal) and value_text reference-parsing to the scalar; none: empty output; invalid input (reference rejects for a reason in the C07 catalogue): the error report parses and has at least one struct with error_type",
+		"cases: (input document, -f format in {text, pretty, binary, events, none, default}, input via file argument or stdin): documents of all types, typed nulls, annotations, nested containers from the reference printer / encoder with spelling variety, streams with local symbol tables, and 20% edited (mostly invalid) documents from the C07 catalogue, 35% of those given as files with a second file beside them (the same document again, or another edited one); enumerated: every type, every typed null and several container shapes, each alone and all together, in text and binary x 6 formats x 2 input routes, plus truncated inputs. The CLI is rebuilt from the working tree and run as a subprocess with -o / -e files. Non-trivial: the input contains a typed null or a struct, or is invalid. Distinct by digest(input, format, route).",
+		"oracle: exit status 0 and no 'panic:' / 'goroutine ' / 'fatal error' on stderr or stdout for every input; valid input (reference decoder): empty error report; text / pretty / binary output reference-decodes to the input's values (symbols by text); events output parses as $ion_event_stream followed by exactly one struct per value, container start, container end and a final STREAM_END, with event_type, ion_type, depth, field_name and annotations present exactly where the input has them (texts equal) and value_text reference-parsing to the scalar; none: empty output; invalid input (reference rejects for a reason in the C07 catalogue): the error report parses and has at least one struct with error_type; with two input files, one such struct whose location names the file for every file the reference rejects",
 		"inputs whose validity the reference leaves undecided are judged for 'no crash' only",
 	)
 }
